@@ -7,8 +7,9 @@
    reason as for the dense ll_dirichlet in L_distances.v).  `int(a)` is [ntrunc] in the generated text and the [xtrunc] field of
    the model's [Ext] record: hypothesis [Htr] (they are the same function for [RExt], see [src_sparse_ll_dirichlet_RExt], and for
    the binary64 records).  No sortedness / no-stored-zero hypothesis: the loop and [lld_merge] do the same on every pair of rows.
-   `for d1 in data1:` is [for_each] (PyPrim.v).  NOT proved here: sparse_ll_dirichlet on canonical rows = the dense ll_dirichlet
-   on the densified vectors (the C13 statement; still covered by the per-run oracle only). *)
+   `for d1 in data1:` is [for_each] (PyPrim.v).  The C13 statement itself (sparse_ll_dirichlet on canonical rows = the dense
+   ll_dirichlet on the densified vectors, on the class where it is true) is thm/T_sparse_lld.v / P_C13.C13_ll_dirichlet; capstone
+   between the two translated sources: K_sparse.C13_src_ll_dirichlet. *)
 From Coq Require Import List ZArith Bool Arith Lia Reals Lra.
 From UV Require Import Num PyPrim PyPrimLemmas M_metrics T_link M_sparse M_sparse_lld T_metrics_real.
 From UVS Require Import Src_sparse L_distances L_sparse.
